@@ -260,7 +260,7 @@ class Base(_BaseClass):
         """
         if token:
             # the keyword may be written with escapes: u\rl(, \75 rl(
-            value = token[1][token[1].index('(') + 1 : -1].strip()
+            value = token[1][token[1].index('(') + 1 : -1].strip(' \t\r\n\f')
             if value and (value[0] in '\'"') and (value[0] == value[-1]):
                 # a string "..." or '...'
                 value = value.replace('\\' + value[0], value[0])[1:-1]
